@@ -78,8 +78,9 @@ class C03(core.Check):
             "of pack(()) / render(()) / rows, plus utf-8 texts ENDING in a 4-byte character at every overflowing width (bytes and str), "
             "plus bytes/str texts in the wide encodings gbk, big5, uhc, euc-kr built from double-byte characters at the edges of the "
             "lead/trail byte ranges (lowest/highest lead byte, ASCII-range and high trail bytes) at every width that puts a wrap/clip "
-            "point on each of their bytes, plus euc-jp / ascii texts - all of these judged by the oracle only (utf-8 bytes also by the "
-            "bytes model); "
+            "point on each of their bytes, plus euc-jp / ascii / latin-1 texts; bytes cases in every mode are compared exactly with the "
+            "models (utf-8: Model/TextLayoutBytes.v, wide/narrow: Model/TextLayoutModes.v) and judged by the oracle, str text under "
+            "non-utf-8 encodings by the oracle only; "
             "non-trivial = the layout has more than one line, or a shift, or an omitted character; distinct by hash of (case, outcome)")
     trusted_base = [
         "Coq 8.16.1 kernel (coqc; vm_compute used only for closed examples)",
@@ -93,8 +94,10 @@ class C03(core.Check):
     ]
     assumptions = [
         "width >= 1; wrap in {any, space, clip, ellipsis}; align in {left, center, right}",
-        "theorems are about str text and about valid utf-8 bytes text (scalar values); rendering of bytes text, euc-jp and ascii "
-        "texts are checked by correspondence / oracle only",
+        "theorems are about str text, valid utf-8 bytes text (scalar values), well-formed double-byte text (wide mode) and any "
+        "bytes in narrow mode; str text under a non-utf-8 encoding is checked by the oracle only",
+        "for bytes text in wide/narrow encodings the natural width used by Text.pack(()) comes from the Python codec and is an "
+        "input of the model (computed by the harness from the codec and get_char_width)",
         "text without display attributes (attribute/charset run bookkeeping of apply_text_layout is not modelled)",
         "in 'space' mode a double-width character is a break opportunity on both sides (as the code treats it): "
         "'word' in the breaks-at-spaces clause means a maximal run of single-width/zero-width non-space characters",
@@ -865,7 +868,7 @@ class C03(core.Check):
 
 
 C03.level_text = (
-    "Proved in Coq (Properties/C03.v, 23 theorems, closed under the global context) about the executable model of "
+    "Proved in Coq (Properties/C03.v, 34 theorems, closed under the global context) about the executable model of "
     "StandardTextLayout / trim_line / apply_text_layout, for EVERY str text, every width >= 1, every wrap mode, alignment and "
     "ellipsis string, and every character-width function with widths in 0..2 and a 1-column space, with no size bound: "
     "layout never raises and the loops terminate within the model's fuel (layout_total; the 'space' mode 'unwrap previous "
@@ -886,11 +889,20 @@ C03.level_text = (
     "its own executable model (Model/TextLayoutBytes.v: decode_one walk, move_prev/next_char, byte offsets) and the theorem "
     "bytes_layout_is_image: for every str of scalar values the layout of its utf-8 encoding is the image of the str layout under "
     "the boundary map boff; from it bytes_layout_order / _fits / _omits_only_wrap / _omits_only_trim / bytes_rows_eq.  The byte "
-    "primitives are proved equal to C11's model of str_util (decode_one arithmetic re-translated every run).  Not in the "
-    "theorems: rendering of bytes text (correspondence + oracle), invalid UTF-8, the wide encodings (gbk, big5, uhc, euc-kr, euc-jp) and ascii (oracle only).  The model is hand-written and tied to the code by an exact extracted-model comparison of layout(), "
-    "rows(), pack((w,)), pack(()), the rendered rows and rows/render at the natural width (about 45k cases per quick run: all strings up to length 3 over "
+    "primitives are proved equal to C11's model of str_util (decode_one arithmetic re-translated every run).  BYTES text in the WIDE (gbk, big5, uhc, euc-kr, "
+    "euc-jp) and NARROW (ascii, latin-1) byte-encoding modes: Model/TextLayoutModes.v is the layout parametric in the mode (record "
+    "of the str_util position queries; within_double_byte written out and proved equal to C11's model and to the py2v translation); "
+    "a generic simulation (Proofs/TextLayoutModesSim.v) shows that any mode whose queries agree with the str queries through a "
+    "boundary map computes the image of the str layout AND of the str rendering; instantiated for wide mode on well-formed "
+    "double-byte text (forallb wfb, using C11's exactness theorem for within_double_byte) and for narrow mode on any bytes: "
+    "wide_/narrow_layout_is_image, _layout_order, _layout_fits, _layout_omits_only*, and wide_/narrow_render_total (never raises, "
+    "rows() = rows, every row exactly width bytes, rows = encodings of the str rows: no character torn).  Not in the theorems: "
+    "rendering of utf-8 bytes text, invalid UTF-8 / ill-formed double-byte text, str text rendered in a non-utf-8 encoding, "
+    "Text.pack(()) of bytes (the Python codec is an input of the model).  "
+    "The models are hand-written and tied to the code by an exact extracted-model comparison of layout(), "
+    "rows(), pack((w,)), pack(()), the rendered rows and rows/render at the natural width (about 56k cases per quick run: all strings up to length 3 over "
     "{a, b, space, newline, U+4E16, U+0301} x widths 1..7 x 4 wraps x 3 alignments, a third of length 4, random longer "
-    "texts); utf-8 bytes, euc-jp and ascii texts are judged by the independent oracle only.")
+    "texts, and every bytes case in the utf8 / wide / narrow modes); str text under non-utf-8 encodings is judged by the oracle only.")
 C03.level_note = (
     "Trusted: Coq kernel; ExtrOcamlBasic extraction + OCaml driver; the hand-written model Model/TextLayout.v (validated by "
     "the correspondence, not proved against Python); the character width function is a parameter (the harness passes "
